@@ -9,7 +9,7 @@ META = {
    note='PARTIAL for the cryptographic core: EdDSA/JWT are abstracted (signer id or -1); that real tokens map to the abstraction is exercised with 10 forgery kinds per run, not proved. Translator is trusted (over-approximates paths by concatenating branches). No axioms.',
    technique='Coq proof (case analysis over handlers) + vm_compute facts over regenerated source tables + differential correspondence'),
  'C14': dict(
-   text='Theorems: the vault changes in no operation but EndBlock; when it changes, an active unexpired proposal had >= MajorityCount yes votes and the vault becomes its keys, leader first (C14_change_partial); 0.6667 = ceil(2n/3) for n in {4,5}; vote inversion (own key ticket, once per key). The full statement (only votes of currently registered keys count) is REFUTED by a vm_compute witness (C14_removed_keys_refuted) that replays on the real app: recorded as known finding D10.',
+   text='Over ALL histories from a genesis vault of 4-5 distinct valid keys (C14_vault_wellformed, Proofs/OvmHist.v): the vault always holds 4 to 5 distinct valid keys, so ticket verification always has a leader; every proposal carries 4-5 distinct valid keys with its leader index in range; each key has voted at most once per proposal and every vote is yes or no; when EndBlock changes the vault the key set is the approved proposal\'s with the proposed leader first (C14_leader_first). Further theorems: the vault changes in no operation but EndBlock; when it changes, an active unexpired proposal had >= MajorityCount yes votes and the vault becomes its keys, leader first (C14_change_partial); 0.6667 = ceil(2n/3) for n in {4,5}; vote inversion (own key ticket, once per key). The full statement (only votes of currently registered keys count) is REFUTED by a vm_compute witness (C14_removed_keys_refuted) that replays on the real app: recorded as known finding D10.',
    note='Known finding D10 is reported as KNOWN-FINDING, any other C14 monitor failure is a VIOLATION. Model hand-written, correspondence-checked. No axioms.',
    technique='Coq proof by induction over the proposal list + refutation witness by vm_compute + differential correspondence'),
  'C15': dict(
